@@ -240,7 +240,7 @@ fn run(name: &str, j: &J) -> Result<bool, String> {
                 "d + 1", "d - d", "encode(w, 'hex')", "decode(w, 'hex')", "hex(x)", "is_bool(b)", "nosuchfunction(x, y)", "x::float", "x::text::integer", "sin(z)", "cos(n)", "sin(n)", "sin(x)",
                 "exp(1000 * q)", "exp(exp(q * 100))", "ln(exp(-1000 * q))", "1 / exp(-1000*q)", "9223372036854775807 + x", "-9223372036854775808 - x", "9223372036854775807 * x",
                 "(-9223372036854775807 - 1) / -1", "1e308 * q", "1e308 * 1e308", "1e-320 / q", "pow(10, 400)", "pow(0, -1)", "sqrt(-1)", "ln(0)", "ln(-1)", "log(0)",
-                "nosuchcolumn", "t.nosuch", "sum(nosuch)", "exp()", "greatest(x)", "coalesce()", "substr(w)", "regexp_replace(w)", "count()", "pow(x)", "round()", "ltrim()", "log()", "X'AB'",
+                "nosuchcolumn", "t.nosuch", "sum(nosuch)", "exp()", "concat()", "greatest(x)", "coalesce()", "substr(w)", "regexp_replace(w)", "count()", "pow(x)", "round()", "ltrim()", "log()", "X'AB'",
             ];
             let one = |e: &str| -> Option<String> {
                 let queries = if name == "c18_query_case" { vec![e.to_string()] } else { vec![format!("SELECT {} AS r FROM t", e), format!("SELECT SUM(q) AS r FROM t WHERE ({}) IS NOT NULL", e), format!("SELECT SUM(q) AS sq FROM t GROUP BY {}", e)] };
@@ -311,6 +311,8 @@ fn run(name: &str, j: &J) -> Result<bool, String> {
                 let arg = Value::structured([("a", va), ("b", vb)]);
                 let y = match std::panic::catch_unwind(std::panic::AssertUnwindSafe(|| e.value(&arg))) { Ok(Ok(y)) => y, _ => return None };
                 if let Value::Float(x) = &y { if !x.is_finite() { return None; } }
+                // NULL is checked strictly (`contains` is lenient across variants: int[1 5] "contains" none through the injection into an optional)
+                if y == Value::none() && !matches!(img, DataType::Optional(_) | DataType::Any) { return Some(format!("{} over {} has the range {} but evaluates to NULL at {}", e, dt, img, arg)); }
                 if reprs(&y).iter().any(|r| img.contains(r)) { None } else { Some(format!("{} over {} has the range {} but its value at {} is {}", e, dt, img, arg, y)) }
             };
             std::panic::set_hook(Box::new(|_| {}));
@@ -794,6 +796,19 @@ fn run(name: &str, j: &J) -> Result<bool, String> {
                         println!("QX-WITNESS {}", serde_json::json!({"family": fam, "a": ia, "b": ib, "v": iv}));
                         return Ok(false);
                     }
+                    // the union contains both sides, the intersection what is in both
+                    // (mixed int / float pairs hold only modulo the injections: listed finding C11:cross_variant…, not searched again)
+                    if *fam == "struct" || (*fam == "optional" && (ia == 2) != (ib == 2)) { continue; }
+                    if let Ok(u) = a.super_union(b) { if (a.contains(v) || b.contains(v)) && !u.contains(v) {
+                        println!("  A = {}, B = {}, v = {}: v is in A or B and not in A ∪ B = {}", a, b, v, u);
+                        println!("QX-WITNESS {}", serde_json::json!({"family": fam, "a": ia, "b": ib, "v": iv}));
+                        return Ok(false);
+                    } }
+                    if let Ok(m) = a.super_intersection(b) { if a.contains(v) && b.contains(v) && !m.contains(v) {
+                        println!("  A = {}, B = {}, v = {}: v is in A and B and not in A ∩ B = {}", a, b, v, m);
+                        println!("QX-WITNESS {}", serde_json::json!({"family": fam, "a": ia, "b": ib, "v": iv}));
+                        return Ok(false);
+                    } }
                 } } }
             }
             Ok(true)
@@ -888,9 +903,38 @@ fn run(name: &str, j: &J) -> Result<bool, String> {
             for q in queries { if let Some(m) = one(q) { println!("  {}", m); println!("QX-WITNESS {}", serde_json::json!({"query": q})); return Ok(false); } }
             Ok(true)
         }
-        // C15: both oracles (Hierarchy lookups, then SQL name resolution)
-        "c15_any_search" => { if !run("c15_lookup_search", j)? { return Ok(false); } run("c15_sql_search", j) }
-        "c15_any_case" => { if j.get("query").is_some() { run("c15_sql_case", j) } else { run("c15_lookup_case", j) } }
+        // C15 (first sentence, scoping): a name bound by WITH resolves to the CTE, also when a table of the context is registered
+        // under that same path (one component or schema-qualified); the expected output columns tell which one was bound
+        "c15_shadow_case" | "c15_shadow_search" => {
+            use qrlew::{hierarchy::Hierarchy, sql::parse};
+            use std::sync::Arc;
+            let mk = |name: &str, last: &str| -> Relation { Relation::table().name(name).schema(vec![("id", DataType::integer_interval(0, 100)), ("a", DataType::integer_interval(0, 10)), (last, DataType::float_interval(0., 1.))].into_iter().collect::<Schema>()).size(100).build() };
+            let entries: Vec<(Vec<String>, Arc<Relation>)> = vec![(vec!["t1".to_string()], Arc::new(mk("t1", "b"))), (vec!["t2".to_string()], Arc::new(mk("t2", "c"))), (vec!["s".to_string(), "u1".to_string()], Arc::new(mk("u1", "b")))];
+            let relations: Hierarchy<Arc<Relation>> = entries.into_iter().collect();
+            let cases: [(&str, &[&str]); 6] = [
+                ("SELECT * FROM t1", &["id", "a", "b"]),
+                ("WITH t1 AS (SELECT a AS z FROM t2) SELECT * FROM t1", &["z"]),
+                ("WITH u1 AS (SELECT a AS z FROM t2) SELECT * FROM u1", &["z"]),
+                ("WITH t1 AS (SELECT c AS z FROM t2) SELECT w.z FROM t1 AS w", &["z"]),
+                ("WITH t2 AS (SELECT a AS z FROM t1) SELECT t1.id, t2.z FROM t1 JOIN t2 ON t1.a = t2.z", &["id", "z"]),
+                ("WITH v AS (SELECT a AS z FROM t2) SELECT * FROM v", &["z"]),
+            ];
+            let one = |k: usize| -> Option<String> {
+                let (q, want) = cases[k];
+                let relations2 = relations.clone();
+                let r = std::panic::catch_unwind(std::panic::AssertUnwindSafe(|| parse(q).ok().and_then(|ast| Relation::try_from(ast.with(&relations2)).ok())));
+                match r { Ok(Some(rel)) => { let got: Vec<String> = rel.schema().iter().map(|f| f.name().to_string()).collect();
+                        if got.iter().map(|s| s.as_str()).collect::<Vec<_>>() == want.to_vec() { None } else { Some(format!("`{}` has the columns {:?}: the name bound by WITH did not resolve to the CTE (expected {:?})", q, got, want)) } }
+                    _ => None }
+            };
+            std::panic::set_hook(Box::new(|_| {}));
+            if name == "c15_shadow_case" { let r = one(j["shadow"].as_u64().unwrap() as usize); if let Some(m) = &r { println!("  {}", m); } return Ok(r.is_none()); }
+            for k in 0..cases.len() { if let Some(m) = one(k) { println!("  {}", m); println!("QX-WITNESS {}", serde_json::json!({"shadow": k})); return Ok(false); } }
+            Ok(true)
+        }
+        // C15: all oracles (Hierarchy lookups, SQL name resolution, CTE scoping)
+        "c15_any_search" => { if !run("c15_lookup_search", j)? { return Ok(false); } if !run("c15_sql_search", j)? { return Ok(false); } run("c15_shadow_search", j) }
+        "c15_any_case" => { if j.get("query").is_some() { run("c15_sql_case", j) } else if j.get("shadow").is_some() { run("c15_shadow_case", j) } else { run("c15_lookup_case", j) } }
         // C06 / C07: the declared type of COUNT / SUM in a grouped Reduce must contain the per-group values
         "c07_grouped_count_type" => {
             use qrlew::{hierarchy::Hierarchy, expr::Identifier, sql::parse, data_type::DataTyped};
@@ -1057,9 +1101,13 @@ fn run(name: &str, j: &J) -> Result<bool, String> {
                 (DataType::optional(DataType::float_values([1., 2.5])), vec![Value::none(), Value::some(Value::float(1.)), Value::some(Value::float(2.5))]),
                 (DataType::structured([("a", DataType::integer_interval(0, 5)), ("b", DataType::integer_interval(0, 5))]), vec![Value::structured([("a", Value::integer(1)), ("b", Value::integer(2))]), Value::structured([("a", Value::integer(1)), ("b", Value::integer(3))])]),
                 (DataType::list(DataType::integer_interval(0, 5), 0, 3), vec![Value::list(vec![]), Value::list(vec![Value::integer(1)]), Value::list(vec![Value::integer(1), Value::integer(2)])]),
+                // calendar types: values that differ only below the second, or only by the time of the day
+                (DataType::time(), vec![Value::time(chrono::NaiveTime::from_hms_milli_opt(10, 12, 13, 0).unwrap()), Value::time(chrono::NaiveTime::from_hms_milli_opt(10, 12, 13, 250).unwrap()), Value::time(chrono::NaiveTime::from_hms_milli_opt(10, 12, 13, 750).unwrap()), Value::time(chrono::NaiveTime::from_hms_opt(0, 0, 0).unwrap())]),
+                (DataType::date(), vec![Value::date(chrono::NaiveDate::from_ymd_opt(2020, 1, 1).unwrap()), Value::date(chrono::NaiveDate::from_ymd_opt(2020, 1, 2).unwrap()), Value::date(chrono::NaiveDate::from_ymd_opt(1999, 12, 31).unwrap())]),
+                (DataType::date_time(), vec![Value::date_time(chrono::NaiveDate::from_ymd_opt(2020, 1, 1).unwrap().and_hms_milli_opt(0, 0, 0, 0).unwrap()), Value::date_time(chrono::NaiveDate::from_ymd_opt(2020, 1, 1).unwrap().and_hms_milli_opt(0, 0, 0, 500).unwrap()), Value::date_time(chrono::NaiveDate::from_ymd_opt(2020, 1, 1).unwrap().and_hms_milli_opt(10, 0, 0, 0).unwrap()), Value::date_time(chrono::NaiveDate::from_ymd_opt(2020, 1, 2).unwrap().and_hms_milli_opt(10, 0, 0, 0).unwrap())]),
             ];
             let targets: Vec<DataType> = vec![DataType::boolean(), DataType::integer(), DataType::float(), DataType::text(), DataType::optional(DataType::integer()), DataType::optional(DataType::float()),
-                DataType::structured([("a", DataType::float())]), DataType::structured([("a", DataType::float()), ("b", DataType::float())]), DataType::list(DataType::float(), 0, 10)];
+                DataType::structured([("a", DataType::float())]), DataType::structured([("a", DataType::float()), ("b", DataType::float())]), DataType::list(DataType::float(), 0, 10), DataType::bytes(), DataType::date(), DataType::date_time()];
             let want = (j["source"].as_u64(), j["target"].as_u64());
             std::panic::set_hook(Box::new(|_| {}));
             for (si, (src, values)) in sources.iter().enumerate() { for (ti, tgt) in targets.iter().enumerate() {
@@ -1105,6 +1153,34 @@ fn run(name: &str, j: &J) -> Result<bool, String> {
                 let need = noises.saturating_sub(if thresholded { 1 } else { 0 });
                 if gaussians < need { return Some(format!("`{}`: {} Gaussian noise terms in the rewritten query ({} for thresholding), {} Gaussian mechanisms in the event {}", q, noises, if thresholded { 1 } else { 0 }, gaussians, rw.dp_event())); }
                 if thresholded && eds == 0 { return Some(format!("`{}`: grouping keys are released by tau-thresholding but the event has no (epsilon, delta) entry: {}", q, rw.dp_event())); }
+                // second sentence of C03, on one aggregation without grouping key (all of (1, 1e-3) goes to the aggregates, nested
+                // aggregations excluded): the n noisy sums must each be calibrated for (epsilon / n, delta / n) — sigma_i / C_i is read
+                // from the query: `(SQRT("col")) / (C)` in the clipping stage, `((sigma) * ((SQRT((-2) * (LN(RANDOM` in the noise stage
+                if !thresholded && !q.contains("WITH") && !q.contains("GROUP BY") {
+                    let mut bounds: Vec<(String, f64)> = vec![];
+                    let mut rest = sql.as_str();
+                    while let Some(k) = rest.find("(SQRT(\"") { rest = &rest[k + 7..]; if let Some(e) = rest.find("\")) / (") { let col = rest[..e].to_string(); let tail = &rest[e + 7..]; if let Some(c) = tail.find(')') { if let Ok(v) = tail[..c].parse::<f64>() { if !bounds.iter().any(|(n, _)| *n == col) { bounds.push((col, v)); } } } } }
+                    // (column, sigma): `(COALESCE("_SUM_<col>", 0)) + ((sigma) * ((SQRT((-2) * (LN(RANDOM`
+                    let mut sigmas: Vec<(String, f64)> = vec![];
+                    let mut rest = sql.as_str();
+                    while let Some(k) = rest.find(") * ((SQRT((-2) * (LN(RANDOM") {
+                        let head = &rest[..k];
+                        if let Some(b) = head.rfind("((") { if let Ok(v) = head[b + 2..].parse::<f64>() {
+                            if let Some(cq) = head[..b].rfind("(COALESCE(\"") { let nm = &head[cq + 11..b]; if let Some(e) = nm.find('"') { sigmas.push((nm[..e].to_string(), v)); } }
+                        } }
+                        rest = &rest[k + 10..];
+                    }
+                    let n = sigmas.len() as f64;
+                    if n >= 1. && sigmas.len() == noises {
+                        let required = (2. * (1.25_f64 / (1e-3 / n)).ln()).sqrt() / (1. / n);
+                        for (noised, sg) in sigmas.iter() {
+                            // the clipping bound of the column this noise is added to (paired by name: the noisy sum of <col> is `_SUM_<col>`; counts are clipped elsewhere and skipped)
+                            if let Some((col, c)) = bounds.iter().find(|(col, _)| *noised == format!("_SUM_{}", col)) {
+                                if *c > 0. && sg / c < required * (1. - 1e-9) { return Some(format!("`{}`: {} noisy sums share (1, 0.001) but the noise on {} has sigma / C = {} / {} = {}, below the multiplier {} of (epsilon / {}, delta / {})", q, n, col, sg, c, sg / c, required, n, n)); }
+                            }
+                        }
+                    }
+                }
                 None
             };
             std::panic::set_hook(Box::new(|_| {}));
@@ -1237,6 +1313,10 @@ fn run(name: &str, j: &J) -> Result<bool, String> {
                 // the schema declares about the number of rows of a unit
                 if g.is_empty() { return Some(format!("`{}`: the rewritten query adds noise but has no per-unit clipping stage (no _NORM_ columns)", q)); }
                 for n in g { if n != keys + 1 { return Some(format!("`{}`: the partial sums behind the clipping norm are grouped by {} columns; the query has {} grouping columns plus the privacy unit", q, n, keys)); } }
+                // the norm compared with C is the SQUARE ROOT of the per-unit sum of squares (a necessary, syntactic condition: the
+                // clipping factor of the generated query divides SQRT(<sum of squares>) by C)
+                let sql = qrlew::ast::Query::from(rw.relation()).to_string();
+                if !sql.contains("(SQRT(\"") { return Some(format!("`{}`: the clipping stage compares the sum of squares itself, not its square root, with the clipping bound (no SQRT of a column in the rewritten query)", q)); }
                 None
             };
             std::panic::set_hook(Box::new(|_| {}));
